@@ -47,13 +47,14 @@ Definition uses_stmt (s : stmt) : list use :=
   | _ => []
   end.
 
-(* the events of a script in program order: a declaration comes into effect before the arguments
-   of its own origin are looked at *)
+(* the events of a script in program order: the arguments of a declaration's origin are looked at
+   before the declaration comes into effect (the interpreter evaluates the origin before the
+   variable exists: a variable is not in scope in its own origin) *)
 Inductive event := Declare (name : string) (r : range) | Use (name : string) (r : range).
 
 Definition events_decl (d : vardecl) : list event :=
-  match vd_name d with Some (r, n) => [Declare n r] | None => [] end
-  ++ match vd_origin d with Some f => map (fun u : use => Use (fst u) (snd u)) (uses_fncall f) | None => [] end.
+  match vd_origin d with Some f => map (fun u : use => Use (fst u) (snd u)) (uses_fncall f) | None => [] end
+  ++ match vd_name d with Some (r, n) => [Declare n r] | None => [] end.
 
 Definition events (p : program) : list event :=
   flat_map events_decl (p_vars p) ++ map (fun u : use => Use (fst u) (snd u)) (flat_map uses_stmt (p_stmts p)).
